@@ -288,12 +288,16 @@ def packetPiece (p : Packet) (s : String) : Out Bytes :=
   else .ok []
 
 /-- both serialisers emit the same pieces in the same order (the model's `buildG` walks one list for
-both), and that order is the model's: header, questions, answers, name servers, OPT, additional -/
+both), and that order is the model's: header, questions, answers, name servers, OPT, additional -
+and both end with `flush`: with a writer that defers its work (`std::io::BufWriter`) the message
+reaches the underlying writer, or the error the caller, only then (`Props/C04Flush.lean`:
+`buffered_transparent` holds with the final flush, `no_flush_loses_message` / `no_flush_hides_error`
+without it) -/
 theorem packet_write_order :
     Gen.Env.packetWriteOrder.all
-      (· == ["header", "questions", "answers", "name_servers", "opt", "additional_records"]) ∧
+      (· == ["header", "questions", "answers", "name_servers", "opt", "additional_records", "flush"]) ∧
     Gen.Env.packetWriteCompressedOrder.all
-      (· == ["header", "questions", "answers", "name_servers", "opt", "additional_records"]) := by
+      (· == ["header", "questions", "answers", "name_servers", "opt", "additional_records", "flush"]) := by
   decide
 
 /-! ### 7. `match_qtype`, `match_qclass` -/
